@@ -65,6 +65,8 @@ pub struct DataDump {
     pub expanded: Option<String>,
     pub depth: usize,
     pub length: usize,
+    /// For data shared between expansions: the address of the `Arc` and its strong count.
+    pub arc: Option<(usize, usize)>,
 }
 
 /// Structural copy of one tree node. `children[k]` are the children of kind `k`, in stored order:
@@ -152,6 +154,13 @@ pub fn dump_node<T, S: NodeState + DumpState>(
             expanded: data.expanded().map(ToOwned::to_owned),
             depth: data.depth(),
             length: data.length(),
+            arc: match data {
+                crate::node::NodeData::Shared { data, .. } => Some((
+                    std::sync::Arc::as_ptr(data).cast::<()>() as usize,
+                    std::sync::Arc::strong_count(data),
+                )),
+                crate::node::NodeData::Inline { .. } => None,
+            },
         }),
         dynamic_children_shortcut: node.dynamic_children_shortcut,
         wildcard_children_shortcut: node.wildcard_children_shortcut,
